@@ -52,6 +52,10 @@ def gen_cfg(rng):
             if k[:2] == "18" and rng.random() < 0.7:
                 known[k] = {"class": "HGI"}
     block = {i: {} for i in rng.sample(LISTABLE, rng.randint(0, 3))}  # may overlap known
+    if rng.random() < 0.15:      # whatever block list is configured: the schema admits the all-devices address too (it matches the device-id pattern)
+        block["63:262142"] = {}
+    if rng.random() < 0.08:
+        known["63:262142"] = {}
     enforce_cfg = rng.random() < 0.6
     active = rng.choice([None, "18:111111", "18:222222", "18:000730", "01:000001"])
     return known, block, enforce_cfg, active
